@@ -1,6 +1,10 @@
 #!/bin/bash
 # usage: check.sh <property-id> <quick|thorough>
 # Decides the property by static analysis of /repo's current working tree.
+#   quick:    the property's rules on the VTA call graph.
+#   thorough: the same rules on VTA and on CHA reachability (differences reported, violations under either count),
+#             followed by the both-ways self-test of this check (selftest/expect.tsv: seeded changes, reverted
+#             fixes and hand-written variants that must fire, behaviour-preserving rewrites that must not).
 set -u
 ID="${1:?property id}"; TIER="${2:-quick}"
 cd /verif || exit 2
@@ -8,4 +12,10 @@ export GOFLAGS=-mod=mod GOPROXY=off GOSUMDB=off GOTOOLCHAIN=local CGO_ENABLED=0
 unset GOWORK
 REPO="${VERIF_REPO:-/repo}"
 ./build.sh >/dev/null || { echo "CHECK-BROKEN property=$ID reason=analyzer build failed"; exit 2; }
-exec ./bin/lsverif -repo "$REPO" -prop "$ID" -tier "$TIER" -out "${VERIF_OUT:-/verif/evidence}" -known /verif/known_findings.json
+./bin/lsverif -repo "$REPO" -prop "$ID" -tier "$TIER" -out "${VERIF_OUT:-/verif/evidence}" -known /verif/known_findings.json
+code=$?
+if [ "$TIER" = thorough ] && [ $code -ne 2 ]; then
+  ./selftest/selftest.sh "$ID"; st=$?
+  [ $st -ne 0 ] && code=2
+fi
+exit $code
